@@ -151,8 +151,14 @@ public:
     for (auto &r : records) b.push_back(show_record(*static_cast<logs_sdk::ReadWriteLogRecord *>(r.get())));
     std::lock_guard<std::mutex> g(log_->m);
     log_->batches.push_back(std::move(b));
-    return opentelemetry::sdk::common::ExportResult::kSuccess;
+    // the answer rotates through every ExportResult: what a processor hands to Export is gone whatever the exporter says
+    static const opentelemetry::sdk::common::ExportResult kAnswers[] = {
+        opentelemetry::sdk::common::ExportResult::kSuccess, opentelemetry::sdk::common::ExportResult::kFailure,
+        opentelemetry::sdk::common::ExportResult::kSuccess, opentelemetry::sdk::common::ExportResult::kFailureFull,
+        opentelemetry::sdk::common::ExportResult::kSuccess, opentelemetry::sdk::common::ExportResult::kFailureInvalidArgument};
+    return kAnswers[(n_answers_++) % 6];
   }
+  unsigned n_answers_ = 0;
   bool ForceFlush(std::chrono::microseconds) noexcept override { return true; }
   bool Shutdown(std::chrono::microseconds) noexcept override { return true; }
 
